@@ -1,6 +1,6 @@
 (* C07 -- Every send completes in bounded time.  Statements only (partial: see DESIGN.md). *)
 From Coq Require Import ZArith List Bool Arith.
-From RV Require Import GenConsts M_Qos P_Qos.
+From RV Require Import GenConsts M_Qos P_Qos P_QosOwner.
 Import ListNotations.
 Open Scope Z_scope.
 
@@ -32,3 +32,17 @@ Proof. reflexivity. Qed.
 (* ... and is the 20 s the property states (the model's clock counts microseconds) *)
 Theorem C07_cap_is_20_seconds : SEND_LIMIT = 20 * 1000000.
 Proof. reflexivity. Qed.
+
+(* never another command's packet: in EVERY run (any events, tie policy, transport behaviour, number of steps) in which no internal
+   assertion of the FSM has tripped -- none reached the event loop, none was handed to a caller; the runs in which one does are C09's
+   finding -- every packet a caller is handed is the echo of ITS frame or the reply ITS frame asks for *)
+Theorem C07_result_belongs : forall cmds plan lifo fuel evs,
+  let w := fst (run cmds plan lifo fuel (world0 evs)) in
+  clean_tr (trace w) = true -> forall t c p, In (Done t c (OkPkt p)) (trace w) -> belongs cmds p c.
+Proof. exact result_belongs. Qed.
+
+(* the hypothesis is met by ordinary runs, and such runs do hand packets to callers *)
+Theorem C07_result_belongs_nonvacuous :
+  let tr := fst (fst (simulate (cmd_a 0 20000000) echoed false 5000 [(0, ConnMade); (15625, Call 0%nat)])) in
+  clean_tr tr = true /\ exists t p, In (Done t 0%nat (OkPkt p)) tr.
+Proof. exact result_belongs_nonvacuous. Qed.
